@@ -64,7 +64,7 @@ Definition matches_route_by_path_tokens (rts qts : list str) (hcv : bool) : opti
   else match_tokens hcv rts qts 0 0.
 
 (* curly.go:146 computeWebserviceScore *)
-Fixpoint ws_score_loop (n : nat) (qts toks : list str) (i score : nat) : bool * nat :=
+Fixpoint ws_score_loop (n : nat) (qts toks : list str) (i score : nat) {struct toks} : bool * nat :=
   match toks with
   | [] => (true, score)
   | other :: toks' =>
